@@ -131,3 +131,15 @@ contract(A, 'data_chunk', variant='quad', props=['C16'], params={'data': 'arr[in
              ('kept-bounds-otherwise', 'implies(not with_overlap, %s)' % _SLICE('chunk[2]', 'chunk[3]'))])
 contract(A, 'data_chunk', variant='other-length', props=['C16'], params={'data': 'arr[int]', 'chunk': 'tuple[int,int,int]', 'with_overlap': 'bool'},
     raises=[('ValueError', 'True', 'iff')], ensures=[])
+
+# get_excerpts, the branches that do not iterate: "(the whole data when it is shorter than requested)", no excerpt, one excerpt
+_GE = {'data': 'arr[int]', 'n_excerpts': 'int', 'excerpt_size': 'int'}
+contract(A, 'get_excerpts', variant='shorter-than-requested', props=['C16'], params=_GE, result='arr[int]',
+    requires=[('sizes-non-negative', 'n_excerpts >= 0 and excerpt_size >= 0'), ('data-shorter-than-requested', 'len(data) < n_excerpts * excerpt_size')],
+    ensures=[('the-whole-data', 'result is data')])
+contract(A, 'get_excerpts', variant='no-excerpt', props=['C16'], params=_GE, result='arr[int]',
+    requires=[('size-non-negative', 'excerpt_size >= 0'), ('none-requested', 'n_excerpts == 0')],
+    ensures=[('nothing', 'len(result) == 0')])
+contract(A, 'get_excerpts', variant='one-excerpt', props=['C16'], params=_GE, result='arr[int]',
+    requires=[('size-non-negative', 'excerpt_size >= 0'), ('one-requested', 'n_excerpts == 1'), ('data-long-enough', 'len(data) >= excerpt_size')],
+    ensures=[('the-leading-excerpt', 'len(result) == excerpt_size and all(result[k] == data[k] for k in range(excerpt_size))')])
